@@ -191,7 +191,9 @@ def run(ctx):
         res.check(okk, "C14-R3", "operator==(%s):coverage" % cls, f.loc, "type, length and bytes compared", "operator==(%s) does not read type, length and bytes" % cls)
 
     # ---- R4 reflexivity
-    eqs = [f for f in fb.all_functions() if f.name.endswith("operator==") and len(f.params) + (1 if f.rec else 0) == 2 and f.cfg_raw]
+    scope4 = {PKT, PAY, TPAY, "ASAM::CMP::PayloadType", "TECMP::PayloadType"} | set(fb.derived_from(PAY)) | set(fb.derived_from(TPAY))
+    eqs = [f for f in fb.all_functions() if f.name.endswith("operator==") and len(f.params) + (1 if f.rec else 0) == 2 and f.cfg_raw and f.params and
+           ((f.params[0]["t"].get("rec") in scope4) or (f.rec in scope4))]
     n4 = 0
     for f in eqs:
         bad = None
@@ -215,7 +217,10 @@ def run(ctx):
                   "when `%s` holds the operator returns false: x == x is false for every object" % (canon(bad[0][4]) + " == " + canon(bad[0][5]) if bad else ""))
 
     # ---- R5 inequality
-    neqs = [f for f in fb.all_functions() if f.name.endswith("operator!=") and f.body]
+    # the value types of the property: Packet, Payload and what derives from them (helper iterators etc. are not in scope)
+    scope = {PKT, PAY, TPAY, "ASAM::CMP::PayloadType", "TECMP::PayloadType"} | set(fb.derived_from(PAY)) | set(fb.derived_from(TPAY))
+    neqs = [f for f in fb.all_functions() if f.name.endswith("operator!=") and f.body and f.params and
+            ((f.params[0]["t"].get("rec") in scope) or (f.rec in scope))]
     for f in neqs:
         rets = [n for n in f.nodes() if n.get("k") == "return"]
         ok = False
